@@ -234,7 +234,7 @@ const PREC_TABLE: [i32; 36] = [
     3, // OR
     2, // QUESTY
     1, // COLON
-    13, 13, 13, 13, // UNARY_MINUS, UNARY_PLUS, NOT, BIT_NOT
+    15, 15, 15, 15, // UNARY_MINUS, UNARY_PLUS, NOT, BIT_NOT
 ];
 
 const OP_STRINGS: [&str; 36] = [
